@@ -105,6 +105,20 @@ int sim_current_task(void);
  *  so that a run ending in a fault still leaves its explicit schedule behind */
 void sim_set_decision_fd(int fd);
 
+// ------------------------------------------------------------------ ThreadSanitizer reports (tsan flavour)
+#define SIM_MAX_TSAN_REPORTS 64
+typedef struct {
+  int tid, size, write;
+  uint64_t pc[4];  // image-relative
+  uint64_t addr;
+} sim_tsan_mop;
+typedef struct {
+  char desc[48];
+  int nmop;
+  sim_tsan_mop mop[2];
+} sim_tsan_report;
+int sim_tsan_reports(const sim_tsan_report** out);
+
 // ------------------------------------------------------------------ faults -> result channel
 /** context the signal handler needs; the harness keeps it current */
 typedef struct {
